@@ -98,27 +98,50 @@ theorem scaled_description_exact_only_if (D : Consts F) (s mn mx ar rr : F) (u f
     exact ⟨by simp [DInfo.Aligned, DType.snap, e1, g1], by simp [DInfo.Aligned, DType.snap, e2, g2]⟩
   · cases hex
 
-/-- scaled limits that are NOT grid aligned (outside the quantifier of the property; `checkProperties` has the remark
-"Datatype.copy() will round min, max to a multiple of self.scale"): for EVERY well-formed tree whose limits have finite
-grid values, the tree `dt'` with the limits moved to their grid values is well formed and grid aligned, has the
-identical description, and the type rebuilt from the description of `dt` exports that description again and validates /
-imports exactly like `dt'`.  So the description is a fixed point of the round trip for every tree, and what the
-round trip changes is exactly `snapLimits`.  Carrier: `GridStable` (`round((k*scale)/scale) = k`). -/
+/-- scaled limits that are NOT grid aligned (`checkProperties` has the remark "Datatype.copy() will round min, max to a
+multiple of self.scale"; a configuration may set such a limit): a tree and the tree with its scaled limits moved to their
+grid values behave alike - `validate` (repaired: the clamping band is measured from the grid values of the limits, like
+the range test), `__call__` and `import_value` are the SAME functions.  Carrier: `GridStable` (`round((k*scale)/scale) = k`). -/
+theorem snapLimits_same_behaviour (hG : GridStable F) (D : Consts F) (dt dt' : DInfo F) (hwf : dt.WF D)
+    (hs : DInfo.snapLimits dt = some dt') :
+    (∀ v prev, validate dt'.erase v prev = validate dt.erase v prev) ∧
+    (∀ w, importValue dt'.erase w = importValue dt.erase w) ∧ (∀ v, call dt'.erase v = call dt.erase v) :=
+  ⟨fun v prev => conv_snapLimits hG D .validate dt dt' hwf hs v prev, fun w => import_snapLimits dt dt' hs w,
+   fun v => conv_snapLimits hG D .call dt dt' hwf hs v none⟩
+
+/-- `rebuild_equiv` for EVERY well-formed tree whose scaled limits have finite grid values, on the grid or not
+(`snapLimits dt = some dt'`; for an aligned tree `dt' = dt`, `snapLimits_aligned`): the type rebuilt from the description
+of `dt` exports that description again and validates / imports exactly like `dt` ITSELF.  In addition the tree `dt'` with
+the limits moved to their grid values is well formed and grid aligned and has the identical description: what the round
+trip changes in the tree is exactly `snapLimits`, and that changes no behaviour (`snapLimits_same_behaviour`). -/
 theorem rebuild_snaps (hG : GridStable F) (D : Consts F) (hD : D.OK) (dt dt' : DInfo F) (hwf : dt.WF D)
     (hs : DInfo.snapLimits dt = some dt') :
     dt'.WF D ∧ dt'.Exportable ∧
     ∃ j dt'', exportDatatype D dt = .ok j ∧ exportDatatype D dt' = .ok j ∧ getDatatype D j = .ok dt'' ∧
       exportDatatype D dt'' = .ok j ∧
-      (∀ v prev, validate dt''.erase v prev = validate dt'.erase v prev) ∧
-      (∀ w, importValue dt''.erase w = importValue dt'.erase w) := by
+      (∀ v prev, validate dt''.erase v prev = validate dt.erase v prev) ∧
+      (∀ w, importValue dt''.erase w = importValue dt.erase w) := by
   obtain ⟨w, x, ex⟩ := snapLimits_spec hG D dt dt' hwf hs
+  obtain ⟨b1, b2, _⟩ := snapLimits_same_behaviour hG D dt dt' hwf hs
   obtain ⟨j, dt'', h1, h2, h3, h4, h5⟩ := rebuild_equiv D hD dt' w x
-  exact ⟨w, x, j, dt'', by rw [← ex]; exact h1, h1, h2, h3, h4, h5⟩
+  exact ⟨w, x, j, dt'', by rw [← ex]; exact h1, h1, h2, h3, fun v prev => (h4 v prev).trans (b1 v prev),
+    fun w => (h5 w).trans (b2 w)⟩
 
 /-- … and `copy()` of any such tree IS the tree with the limits moved to their grid values -/
 theorem copy_snaps (hG : GridStable F) (D : Consts F) (hD : D.OK) (dt dt' : DInfo F) (hwf : dt.WF D)
     (hs : DInfo.snapLimits dt = some dt') : copy D dt = .ok dt' :=
   copy_snap_gen hG D hD constsOK2 dt dt' hwf hs
+
+/-- `copy_equiv` for EVERY well-formed tree whose scaled limits have finite grid values: the copy has the same datainfo,
+the same `validate`, `import_value` and `__call__` as the original (its limits are the grid values) -/
+theorem copy_equiv_snaps (hG : GridStable F) (D : Consts F) (hD : D.OK) (dt dt' : DInfo F) (hwf : dt.WF D)
+    (hs : DInfo.snapLimits dt = some dt') :
+    copy D dt = .ok dt' ∧ exportDatatype D dt' = exportDatatype D dt ∧
+      (∀ v prev, validate dt'.erase v prev = validate dt.erase v prev) ∧
+      (∀ w, importValue dt'.erase w = importValue dt.erase w) ∧ (∀ v, call dt'.erase v = call dt.erase v) := by
+  obtain ⟨_, _, ex⟩ := snapLimits_spec hG D dt dt' hwf hs
+  obtain ⟨b1, b2, b3⟩ := snapLimits_same_behaviour hG D dt dt' hwf hs
+  exact ⟨copy_snaps hG D hD dt dt' hwf hs, ex, b1, b2, b3⟩
 
 /-- for a grid-aligned tree nothing moves (`rebuild_snaps` / `copy_snaps` specialise to `rebuild_equiv` / `copy_equiv`) -/
 theorem snapLimits_aligned (D : Consts F) (dt : DInfo F) (hwf : dt.WF D) (hex : dt.Exportable) :
@@ -145,6 +168,30 @@ theorem command_rebuild_equiv (D : Consts F) (hD : D.OK) (c : CmdInfo F)
     | some t =>
       obtain ⟨w, e⟩ := hx t rfl
       obtain ⟨j, t', h1, h2, h3, h4, h5⟩ := rebuild_equiv D hD t w e
+      exact ⟨some j, some t', optRebuilt_some D h1 h2 h3 h4 h5⟩
+  obtain ⟨ja, a', ea, ga, ea', sa⟩ := comp c.argument (fun t h => hwf t (Or.inl h))
+  obtain ⟨jr, r', er, gr, er', sr⟩ := comp c.result (fun t h => hwf t (Or.inr h))
+  have hex : exportCommand D c =
+      .ok (.obj ([("type", .str "command")] ++ optItem "argument" ja ++ optItem "result" jr)) := by
+    simp only [exportCommand, ea, er]
+  have hget := getCommand_export D ga gr
+  exact ⟨_, ⟨a', r'⟩, hex, hget, by simp only [copyCommand, hex, hget], by simp only [exportCommand, ea', er'], sa, sr⟩
+
+/-- … and the same for argument / result trees whose scaled limits are NOT on the grid (finite grid values; carrier
+`GridStable`): `command_rebuild_equiv` with `rebuild_snaps` in the place of `rebuild_equiv` -/
+theorem command_rebuild_snaps (hG : GridStable F) (D : Consts F) (hD : D.OK) (c : CmdInfo F)
+    (hwf : ∀ t, c.argument = some t ∨ c.result = some t → t.WF D ∧ (DInfo.snapLimits t).isSome = true) :
+    ∃ j c', exportCommand D c = .ok j ∧ getCommand D j = .ok c' ∧ copyCommand D c = .ok c' ∧
+      exportCommand D c' = .ok j ∧ SameOpt c'.argument c.argument ∧ SameOpt c'.result c.result := by
+  have comp : ∀ x : Option (DInfo F), (∀ t, x = some t → t.WF D ∧ (DInfo.snapLimits t).isSome = true) →
+      ∃ jx x', OptRebuilt D x jx x' := by
+    intro x hx
+    cases x with
+    | none => exact ⟨none, none, optRebuilt_none D⟩
+    | some t =>
+      obtain ⟨w, e⟩ := hx t rfl
+      obtain ⟨t1, e1⟩ := Option.isSome_iff_exists.1 e
+      obtain ⟨_, _, j, t', h1, _, h2, h3, h4, h5⟩ := rebuild_snaps hG D hD t t1 w e1
       exact ⟨some j, some t', optRebuilt_some D h1 h2 h3 h4 h5⟩
   obtain ⟨ja, a', ea, ga, ea', sa⟩ := comp c.argument (fun t h => hwf t (Or.inl h))
   obtain ⟨jr, r', er, gr, er', sr⟩ := comp c.result (fun t h => hwf t (Or.inr h))
@@ -533,6 +580,20 @@ example : GridStable Rat ∧
   have f1 : isFinite (-3/10 : Rat) = true := by decide +kernel
   have f2 : isFinite (7/10 : Rat) = true := by decide +kernel
   exact ⟨rat_gridStable, by simp [DInfo.snapLimits, h1, h2, f1, f2], by unfold DInfo.Aligned; decide +kernel⟩
+
+/-- … and the behaviour does not move with them (`snapLimits_same_behaviour`): `ScaledInteger(0.1, 0, 0.34)` and
+`ScaledInteger(0.1, 0, 0.3)` both clamp 0.39 to 0.3 and both refuse 0.4 (before the repair the first one took 0.4:
+0.4 < 0.34 + 0.1) -/
+example :
+    (match validate (.scaled (1/10 : Rat) 0 (34/100) (1/10) 0) (.float (39/100)) none with
+      | .ok (.float x) => some x | _ => none) = some (3/10) ∧
+    (match validate (.scaled (1/10 : Rat) 0 (3/10) (1/10) 0) (.float (39/100)) none with
+      | .ok (.float x) => some x | _ => none) = some (3/10) ∧
+    (match validate (.scaled (1/10 : Rat) 0 (34/100) (1/10) 0) (.float (4/10)) none with
+      | .error e => some e | _ => none) = some .range ∧
+    (match validate (.scaled (1/10 : Rat) 0 (3/10) (1/10) 0) (.float (4/10)) none with
+      | .error e => some e | _ => none) = some .range := by
+  refine ⟨?_, ?_, ?_, ?_⟩ <;> decide +kernel
 
 /-- the hypothesis of `command_rebuild_equiv` is met by `CommandType(IntRange(1, 2), BoolType())` and by `CommandType()` -/
 example : (∀ t, (⟨some (.int 1 2), some .bool⟩ : CmdInfo Rat).argument = some t ∨
